@@ -465,7 +465,7 @@ pub fn glue_string(e: &EnumSpec, name: &str, inst: &str, src: &mut Src, _prop: &
             src.push(&format!("    fn {}(s: &str) -> Option<vrt::PObs> {{", f));
             if _prop == "C18" {
                 // FromStr::Err / TryFrom::Error are pinned: a different type is a compile error on this line
-                src.tagged(&format!("        let r: Result<Self, {}> = {};", errty, call), "C18:error-type");
+                src.tagged(&format!("        let r: ::core::result::Result<Self, {}> = {};", errty, call), "C18:error-type");
             } else {
                 src.push(&format!("        let r = {};", call));
             }
@@ -908,7 +908,7 @@ pub fn module_table(e: &EnumSpec, o: &ModOpts) -> ModuleSrc {
     src.tagged("    fn get(t: &Self::Tb, k: usize) -> i64 { t[<Self as vrt::Glue>::make(k, &mut vrt::Draw::new(vec![]))] }", "C10:index");
     src.tagged("    fn set(t: &mut Self::Tb, k: usize, v: i64) { t[<Self as vrt::Glue>::make(k, &mut vrt::Draw::new(vec![]))] = v; }", "C10:index_mut");
     src.tagged(&format!("    fn all(opts: &[Option<i64>]) -> Option<Self::Tb> {{ {}::new({}).all() }}", tb, args("opts")), "C10:all");
-    src.tagged(&format!("    fn all_ok(rs: &[Result<i64, i64>]) -> Result<Self::Tb, i64> {{ {}::new({}).all_ok() }}", tb, args("rs")), "C10:all_ok");
+    src.tagged(&format!("    fn all_ok(rs: &[::core::result::Result<i64, i64>]) -> ::core::result::Result<Self::Tb, i64> {{ {}::new({}).all_ok() }}", tb, args("rs")), "C10:all_ok");
     src.push("}");
     src.push(&format!("pub fn run(ctx: &mut vrt::Ctx) {{ {}::<{}>(ctx) }}", o.run_fn, name));
     src.push("}");
